@@ -33,6 +33,22 @@ def borderline_variants(schema, doc, rng):
                     spots.append((container, i, members))
     out = []
     rng.shuffle(spots)
+    # an ABSTRACT type condition under another abstract type that shares possible types with it (`search { __typename ... on
+    # Node { id } }`, union SearchResult = User | Dog, both Nodes): valid by the spec's "spread is possible" rule
+    for container, i, members in spots[:2]:
+        item0 = container[i]
+        bt = base(schema.field(positions_ptype(schema, doc, container, i), item0[2])["type"])
+        for x in schema.order:
+            if x == bt or schema.kind(x) != "interface" or not (set(schema.possible(x)) & set(members)):
+                continue
+            leaves = [f for f in schema.types[x]["fields"] if schema.is_leaf(base(f["type"]))]
+            if not leaves:
+                continue
+            d2 = copy.deepcopy(doc)
+            item = _get(d2, _path_of(doc, container, i))[i]
+            item[4] = list(item[4]) + [["inline", x, [["field", "zzAbstract", leaves[0]["name"], None, None]]]]
+            out.append(("abstract-condition", d2))
+            break
     for container, i, members in spots[:2]:
         for how in ("member-fragment", "member-inline", "dropped"):
             d2 = copy.deepcopy(doc)
@@ -51,6 +67,14 @@ def borderline_variants(schema, doc, rng):
     return out
 
 
+def positions_ptype(schema, doc, container, i):
+    from ..gen_edits import positions
+    for c, k, it, ptype, where, depth, in_inline in positions(schema, doc):
+        if c is container and k == i:
+            return ptype
+    raise KeyError
+
+
 FLOOR = {"abstract-position": 20, "named-fragment": 5, "inline-variant": 5, "id-int": 5, "list-len-0": 5, "null": 20}
 
 
@@ -60,9 +84,12 @@ def gen_cases(run, n, prefix="c"):
     schema = None
     for i in range(n):
         if i % 3 == 0:
-            schema = gen_schema(rng, odd_type_names=(i % 6 == 0), narrowing=0.35 if i % 2 else 0.0)
+            schema = gen_schema(rng, odd_type_names=(i % 6 == 0), narrowing=0.35 if i % 2 else 0.0, unknown_member=(i % 12 == 9))
         doc, feats = gen_document(schema, rng)
         opts = {"other_variant": rng.random() < 0.3, "skip_none": rng.random() < 0.2}
+        if "Unknown" in schema.types:
+            opts["other_variant"] = False     # a member type literally called `Unknown`: the generator must not add a variant of that name itself
+            run.count("member-type-named-Unknown")
         if rng.random() < 0.3:
             opts["normalization"] = "rust"
         c = C.make_case("%s%d" % (prefix, i), schema, doc, rng, options=opts, features=feats)
@@ -71,7 +98,7 @@ def gen_cases(run, n, prefix="c"):
         c["payload_stats"] = stats
         out.append(c)
         if i % 2 == 0 and ({"interface", "union"} & set(feats)):
-            for bi, (how, d2) in enumerate(borderline_variants(schema, doc, rng)[:3]):
+            for bi, (how, d2) in enumerate(borderline_variants(schema, doc, rng)[:4]):
                 b = C.make_case("%s%d_b%d" % (prefix, i, bi), schema, d2, rng, options=opts, fmt=c["schema_format"], features=list(feats) + ["borderline:" + how])
                 b["borderline"] = how
                 try:
